@@ -35,4 +35,5 @@ def run(ctx):
     n = 4000 if ctx.quick else 80000
     chanlib.liveness_tie(ctx, "conc-liveness", [h, "gen", "--seed", str(ctx.seed), "--cases", str(n), "--mode", "conc",
                                                 "--tier", ctx.tier], drv)
+    chanlib.race_pairs_tie(ctx, h, drv)
     chanlib.layer_b(ctx, LAYER_B)
